@@ -19,3 +19,23 @@ package resolvers
 //@   props C17
 //@   requires ctx != nil
 //@   ensures [refused] !auth.hasUser(ctx) ==> err != nil && cache.repoWrites == old(cache.repoWrites)
+
+// The closures handed to the pagination functions (property C20). The edger must give the element at
+// offset k the cursor OffsetToCursor(k) (this is the precondition [edger-cursor] of the *Con functions);
+// the connection maker must keep, for every selected edge, the cursor it was given.
+//@ func repoResolver.AllBugs$1
+//@   props C20
+//@   nopanic
+//@   modifies nothing
+//@   ensures [cursor] result.GetCursor() == connections.OffsetToCursor(offset)
+//@   ensures [type]   typeof(result) == type[connections.LazyBugEdge] && result.(connections.LazyBugEdge).Id == id
+
+//@ func repoResolver.AllBugs$2
+//@   props C20
+//@   nopanic
+//@   requires [edges-non-nil] forall k int :: { lazyBugEdges[k] } 0 <= k && k < len(lazyBugEdges) ==> lazyBugEdges[k] != nil
+//@   ensures [keeps-cursors] result1 == nil ==> result != nil && len(result.Edges) == len(lazyBugEdges) && (forall k int :: { result.Edges[k] } 0 <= k && k < len(lazyBugEdges) ==> result.Edges[k] != nil && result.Edges[k].Cursor == old(lazyBugEdges[k].Cursor))
+//@   ensures [keeps-info]    result1 == nil ==> result.PageInfo == info && result.TotalCount == totalCount
+//@   loop 1
+//@     invariant forall k int :: { edges[k] } 0 <= k && k <= rangeindex ==> allocated(edges[k]) && edges[k].Cursor == old(lazyBugEdges[k].Cursor)
+//@     invariant forall k int :: { lazyBugEdges[k] } 0 <= k && k < len(lazyBugEdges) ==> lazyBugEdges[k] != nil && lazyBugEdges[k].Cursor == old(lazyBugEdges[k].Cursor) && lazyBugEdges[k] == old(lazyBugEdges[k])
